@@ -338,17 +338,18 @@ class IPPO(MultiAgentRLAlgorithm):
         :rtype: Dict[str, np.ndarray]
         """
         # Get dict of form {"agent_id" : [1, 0, 0, 0]...} etc
+        # NOTE: Collect the masks in the order of the agent IDs, which is the order in which
+        # the observations of homogeneous agents are batched
         action_masks = {homo_id: [] for homo_id in self.shared_agent_ids}
-        for agent_id, info in infos.items():
+        for agent_id in self.agent_ids:
+            info = infos.get(agent_id)
             if isinstance(info, dict):
                 homo_id = self.get_homo_id(agent_id)
-                action_masks[homo_id].append(
-                    info.get("action_mask", None) if isinstance(info, dict) else None
-                )
+                action_masks[homo_id].append(info.get("action_mask", None))
 
         # Check and stack masks
         for homo_id in self.shared_agent_ids:
-            if None in action_masks[homo_id]:
+            if any(mask is None for mask in action_masks[homo_id]):
                 assert all(mask is None for mask in action_masks[homo_id]), (
                     f"If action masks are provided for any agents, they must be provided for all agents. "
                     "Action masks can be defined as an array with the shape of the action space "
@@ -357,7 +358,10 @@ class IPPO(MultiAgentRLAlgorithm):
 
                 action_masks[homo_id] = None
             else:
-                action_masks[homo_id] = torch.Tensor(action_masks[homo_id])
+                action_masks[homo_id] = torch.as_tensor(
+                    np.stack([np.asarray(mask) for mask in action_masks[homo_id]]),
+                    dtype=torch.float32,
+                )
 
         return action_masks
 
